@@ -93,10 +93,14 @@ Section Oracle.
    AwesomeVersionCompareException.  Supplied by the harness with the library's
    real answer; every theorem quantifies over it. *)
 Variable orc : avop -> pstr -> pstr -> option bool.
-(* Whether AwesomeVersion(s).strategy is SPECIALCONTAINER ("latest", "dev",
-   "stable", "beta" after awesomeversion's own trimming) for a string s that is
-   not dotted numeric; a dotted numeric string never is (the pattern needs
-   letters).  Also supplied by the harness, also quantified over. *)
+(* Whether AwesomeVersion(s).strategy is one of the strategies that is_version
+   refuses before comparing - SPECIALCONTAINER ("latest", "dev", "stable",
+   "beta" after awesomeversion's own trimming; fix b5ee08d) and UNKNOWN (forms
+   like "7 ." that the library cannot compare; fix of finding D22); the list is
+   read from the source by the translator (comment in Gen/Signatures.v) - for a
+   string s that is not dotted numeric; a dotted numeric string never is
+   (SIMPLEVER/BUILDVER/SEMVER/CALVER).  Supplied by the harness with the
+   library's verdict, quantified over by every theorem. *)
 Variable cont : pstr -> bool.
 
 Definition is_container (s : pstr) : bool := negb (dotted_numeric s) && cont s.
